@@ -142,6 +142,7 @@ Section Drivers.
                 | (s', Done) => files_serial rest jd s'
                 | r => r
                 end
+              else if multi && is_nil output then files_serial rest jd s
               else
                 let s1 := if multi then out s (T "--- " ++ p ++ [10]) else s in
                 files_serial rest jd (out s1 (output ++ [10]))
@@ -225,7 +226,10 @@ Section Drivers.
   Fixpoint lw_files_serial (files : list text) (jd : list (text * list record)) (s : dstate)
     : result :=
     match files with
-    | [] => if do_json o then (out s (format_json_files jd), Done) else (s, Done)
+    | [] =>
+      (* with --json control falls through to the common tail of the serial
+         branch, which prints the (empty) rest and a newline *)
+      if do_json o then (out s (format_json_files jd ++ format_json [] ++ [10]), Done) else (s, Done)
     | p :: rest =>
       match fs_read (d_fs s) p with
       | None => (s, Failed false)
@@ -242,6 +246,7 @@ Section Drivers.
                 | (s', Done) => lw_files_serial rest jd s'
                 | r => r
                 end
+              else if multi && is_nil output then lw_files_serial rest jd s
               else
                 let s1 := if multi then out s (T "--- " ++ p ++ [10]) else s in
                 lw_files_serial rest jd (out s1 (output ++ [10]))
